@@ -11,6 +11,16 @@ def instances(tier):
     for bpp in (1, 8, 16, 32, 4, 24):
         L.append(Inst("fast_path_fill-%dbpp" % bpp, "C19/fill.c", {"BPP": bpp}, link=[], unwind=11, timeout=900, checks=["--bounds-check", "--pointer-check"],
                       desc={"what": "fast_path_fill on a symbolic 2x2-word buffer, EVERY rectangle (x, y, w, h symbolic): exactly the rectangle's bits set, or FALSE and nothing changed"}))
+    EX = ("pixman-sse2.c", "pixman-ssse3.c", "pixman-mmx.c")
+    blts = [("inplace-32bpp", {"BLT": 1, "PUBLIC": None, "INPLACE": None, "BPPV": 32, "ROWS": 4, "STRIDEW": 4, "SSTRIDE": 8, "X": 0, "Y": 0, "SX": 0, "SY": 0, "WD": 4, "HT": 2}),
+            ("32bpp", {"BLT": 1, "PUBLIC": None, "BPPV": 32, "ROWS": 2, "STRIDEW": 6, "X": 1, "Y": 0, "SX": 2, "SY": 0, "WD": 4, "HT": 2})]
+    if tier == "thorough":
+        blts += [("inplace-16bpp", {"BLT": 1, "PUBLIC": None, "INPLACE": None, "BPPV": 16, "ROWS": 4, "STRIDEW": 4, "SSTRIDE": 8, "X": 0, "Y": 0, "SX": 0, "SY": 0, "WD": 8, "HT": 2}),
+                 ("8bpp-refused", {"BLT": 1, "PUBLIC": None, "BPPV": 8, "ROWS": 2, "STRIDEW": 4, "X": 0, "Y": 0, "SX": 0, "SY": 0, "WD": 4, "HT": 1})]
+    for nm, d in blts:
+        L.append(Inst("pixman_blt-" + nm, "C02/fillblt.c", d, simd=True, exclude=EX, models=("env_stubs.c", "x86_builtins.c"), unwind=70, objbits=12,
+                      timeout=900, checks=["--bounds-check", "--pointer-check"],
+                      desc={"what": "public pixman_blt over a chain with the real sse2_blt (x86 builtins through models): exactly the rectangle copied bit for bit, nothing else changed, incl. same-buffer source/destination with different strides; contents symbolic, geometry concrete"}))
     combos = []
     if True:   # the larger thorough matrix could not be validated in the available time: both tiers run this set
         combos = [("SRC", "a8r8g8b8", "0xffff", "right-bottom-out"), ("SRC", "a8", "0x8000", "left-top-out"), ("OVER", "a8r8g8b8", "0xffff", "column"),
@@ -53,3 +63,15 @@ RULE = "C19 instance = fill unit per bpp | fill_boxes (operator, format, alpha c
 BOUNDS = {"fill": "buffer 2 rows x 2 words, all rectangles", "fill_boxes": "3x2 destination with padding, box from a menu of 7, 1 box per call"}
 OUTSIDE = ["wide (10-bit/float) destinations: the float pipeline does not fit (measured: out of memory at 16 GB)", "sse2_fill / sse2_blt / mmx_fill / mmx_blt", "multi-box calls (region sweep not encodable)", "clip regions on the destination", "fill_rectangles with more than 6 rectangles"]
 ASSUMPTIONS = ["allocation succeeds"]
+
+
+def PRECHECK(ctx):
+    """pixman_blt instances go through models of the x86 builtins: validate the models against the CPU first (as C02 does)."""
+    import os, subprocess
+    from vp import core
+    exe = os.path.join(ctx.work, "validate_builtins")
+    r = subprocess.run(["gcc", "-O1", "-msse2", "-w", os.path.join(core.MODELS, "validate_builtins.c"), "-I" + core.MODELS, "-o", exe], capture_output=True, text=True)
+    if r.returncode != 0:
+        return False, "validate_builtins build failed: " + r.stderr[-500:]
+    r = subprocess.run([exe, str(ctx.seed or 1)], capture_output=True, text=True)
+    return r.returncode == 0, r.stdout.strip()[-300:]
